@@ -10,6 +10,8 @@ import (
 
 // genVC builds the verification conditions of fn (against its contract if any).
 func (P *Program) genVC(fn *ssa.Function, opts genOpts) (vc *VC) {
+	P.mu.Lock()
+	defer P.mu.Unlock()
 	ct := P.contractFor(fn)
 	loopMods := map[string]map[string]bool{}
 	autoInv := opts.autoInv
@@ -67,6 +69,10 @@ func (P *Program) genVC(fn *ssa.Function, opts genOpts) (vc *VC) {
 			vc.assumeGlobal(mkNot(mkEq(t, i64(0))))
 		}
 		f.params = nil
+		vc.topVals = map[ssa.Value]Term{}
+		for _, p := range fn.Params {
+			vc.topVals[p] = f.vals[p]
+		}
 		f.assumePre()
 		vc.stack = []*ssa.Function{fn}
 		f.run(tTrue, entry)
